@@ -25,6 +25,8 @@ def configs(tier):
             for sub in itertools.combinations(KEYS, r):
                 out.append(dict(part="batch", kind=kind, batched=list(sub), B=B))
         out.append(dict(part="hetero", kind=kind, B=B))
+        # one loss object evaluated on batches that batch DIFFERENT subsets of the keys, one after the other, in one process
+        out.append(dict(part="sequence", kind=kind, B=B))
     for kind in ("ode", "statio", "nonstatio"):
         for sub in (["kappa"], ["theta", "kappa"]):
             out.append(dict(part="system", kind=kind, batched=sub, B=B))
@@ -73,9 +75,59 @@ def _mk(kind, B, hetero=None, dk_both=False):
     return u, params, loss, batch
 
 
+def run_sequence(cfg, R):
+    """evaluate(params, batch_1), evaluate(params, batch_2), evaluate(params, batch_1) with different batched-key subsets: every
+    result must be the one of its own batch (no state carried from one evaluation to the next)"""
+    kind, B = cfg["kind"], cfg["B"]
+    u, params, loss, batch = _mk(kind, B)
+    batch = eqx.tree_at(lambda b: b.obs_batch_dict, batch, None)
+    def with_pb(keys_):
+        pb = {k: (jnp.arange(1, B + 1).reshape(B, 1) * 0.3 + 0.1 * i) for i, k in enumerate(KEYS) if k in keys_}
+        return eqx.tree_at(lambda b: b.param_batch_dict, batch, pb if pb else None, is_leaf=lambda x: x is None)
+    seqs = [("kappa",), ("theta", "kappa"), (), ("mu",)]
+    batches = [with_pb(k_) for k_ in seqs]
+    def f(loss, params, batches):
+        outs = []
+        for b_ in list(batches) + [batches[0], batches[1]]:
+            outs.append(loss.evaluate(params, b_)[1]["dyn_loss"])
+        ref = []
+        for b_ in batches:          # each batch evaluated on its own, on a freshly rebuilt loss object
+            ref.append(_mk(kind, B)[2].evaluate(params, b_)[1]["dyn_loss"])
+        return outs, ref
+    name = f"sequence/{kind}"
+    R.note(functions=["jinns.loss.*.evaluate on successive batches with different batched keys", "_get_vmap_in_axes_params"])
+    tr = R.trace(name, f, (loss, params, batches), key=f"sequence:{kind}:raises")
+    if tr is None: return
+    half, quarter = const(Fraction(1, 2), "Real"), const(Fraction(1, 4), "Real")
+    def oracle(A, j):
+        loss_, p, bs = A
+        b_ = bs[j]; keys_ = seqs[j]
+        rows = []
+        for i in range(B):
+            if kind == "ode": z = [b_.temporal_batch[i]]; lin = mul(half, z[0])
+            elif kind == "statio": z = list(b_.inside_batch[i]); lin = mul(half, z[0])
+            else: z = list(b_.times_x_inside_batch[i]); lin = add(mul(half, z[0]), mul(quarter, z[1]))
+            v = lambda k: (b_.param_batch_dict[k][i, 0] if k in keys_ else p.eq_params[k][()])
+            arg = add(add(add(mul(D(p.nn_params, z), v("theta")), mul(const(2, "Real"), v("kappa"))), mul(const(3, "Real"), v("mu"))), lin)
+            rows.append(sq(uf("psi0_0", arg)))
+        return mean(rows)
+    def goals(A, O):
+        outs, ref = O
+        order = list(range(len(seqs))) + [0, 1]
+        G = []
+        for pos, j in enumerate(order):
+            G.append((f"evaluation #{pos} (batched keys {list(seqs[j])}) == the value for ITS batch, whatever was evaluated before", eq(outs[pos][()], oracle(A, j))))
+        return G
+    def twins(A, O):
+        outs, ref = O
+        return [("evaluation #1 == value of batch #0", eq(outs[1][()], oracle(A, 0)))]
+    R.check(name, tr, goals, twin_fn=twins, key_fn=lambda p_, g: f"sequence:{kind}")
+
+
 def run(cfg, R):
     part, kind, B = cfg["part"], cfg["kind"], cfg["B"]
     if part == "system": return run_system(cfg, R)
+    if part == "sequence": return run_sequence(cfg, R)
     half, quarter = const(Fraction(1, 2), "Real"), const(Fraction(1, 4), "Real")
     if part == "batch":
         batched = cfg["batched"]
